@@ -26,7 +26,7 @@ theorem sameMarkup_elem_eq {a b : Node} {t : TypeId} {at' : Attrs} {m : Marks} {
   cases a <;> simp_all [Node.sameMarkup, Node.kids]
 
 /-- a replace only succeeds on an element node -/
-theorem fromReplace_elem (S : Schema) (doc doc' : Node) (f t : Nat) (sl : Slice)
+theorem fromReplace_isElem (S : Schema) (doc doc' : Node) (f t : Nat) (sl : Slice)
     (h : S.fromReplace doc f t sl = .ok doc') : ∃ ty a m k, doc = .elem ty a m k := by
   unfold Schema.fromReplace Schema.replace at h
   cases doc with
@@ -53,7 +53,7 @@ theorem apply_addMark_elem (S : Schema) (doc doc' : Node) (f t : Nat) (m : Mark)
   · simp at h
   · split at h
     · simp at h
-    · exact fromReplace_elem S doc doc' f t _ h
+    · exact fromReplace_isElem S doc doc' f t _ h
 
 theorem apply_removeMark_elem (S : Schema) (doc doc' : Node) (f t : Nat) (m : Mark)
     (h : S.apply (.removeMark f t m) doc = .ok doc') : ∃ ty a mk k, doc = .elem ty a mk k := by
@@ -61,11 +61,11 @@ theorem apply_removeMark_elem (S : Schema) (doc doc' : Node) (f t : Nat) (m : Ma
   simp only at h
   split at h
   · simp at h
-  · exact fromReplace_elem S doc doc' f t _ h
+  · exact fromReplace_isElem S doc doc' f t _ h
 
 /-! ### slices -/
 
-theorem Slice.toks_length_of_wf {sl : Slice} (hwf : sl.wf = true) : (sl.toks.length : Int) = sl.size := by
+private theorem Slice.toks_length_of_wf {sl : Slice} (hwf : sl.wf = true) : (sl.toks.length : Int) = sl.size := by
   have := wf_opens_le hwf
   simp only [Slice.toks, List.length_take, List.length_drop, ftoks_length, Slice.size]
   omega
